@@ -1,4 +1,5 @@
-"""C11 reference model and family enumeration (plain python / numpy; imports nothing from rex or jax).
+"""C11 reference model and family enumeration (plain python / numpy; imports nothing from rex or jax; ml_dtypes only to have
+a numpy dtype called bfloat16).
 
 Time base: integer *ticks* of 1/4096 s.  Every time the harness feeds to rex (message send times, dummy receive
 times, step start, delay bounds, delays) is an integer number of ticks below 2**18, so all of them and all their
@@ -22,6 +23,7 @@ The reference is written from the property statement:
 """
 import itertools
 
+import ml_dtypes  # noqa: F401  (registers np.dtype("bfloat16"))
 import numpy as np
 
 U = 4096  # ticks per second
@@ -34,6 +36,13 @@ TOL_G_REL = 1e-3  # relative tolerance on d value / d alpha (float32 autodiff of
 SHAPES = [(), (2,), (2, 3)]
 DTYPES = ["float32", "int32", "uint8"]
 LEAVES = [(f"{dt}_{'x'.join(map(str, sh)) or 's'}", dt, sh) for dt in DTYPES for sh in SHAPES]
+# half-precision floating leaves (dtype restoration of every floating dtype, not only float32); same payload values as the float32 leaves
+# (quarter steps in [-6.5, 2.75]: exactly representable in float16 and bfloat16)
+LEAVES += [(f"{dt}_{'x'.join(map(str, sh)) or 's'}", dt, sh) for dt in ("float16", "bfloat16") for sh in [(), (2,)]]
+INT_DTYPES = ("int32", "uint8")
+# absolute tolerance per dtype: float32 as TOL_F; the half-precision leaves are computed in float32 by jnp.interp and rounded once
+# by the cast back: |values| <= 8, unit roundoff 2^-11 (float16) / 2^-8 (bfloat16) -> 8*2^-11 = 3.9e-3, 8*2^-8 = 3.1e-2 (plus TOL_F), doubled
+TOL_BY_DTYPE = {"float32": TOL_F, "float16": TOL_F + 2 * 8 * 2.0 ** -11, "bfloat16": TOL_F + 2 * 8 * 2.0 ** -8}
 RATES = [8, 16, 32]
 RANGES = [(0, 512), (64, 320), (0, 192)]  # [min,max] in ticks: [0,8/64], [1/64,5/64], [0,3/64]
 WINDOWS = [1, 2, 3]
@@ -62,10 +71,10 @@ def payload(mid):
     for name, dt, sh in LEAVES:
         n = int(np.prod(sh)) if sh else 1
         if mid < 0:
-            v = np.full(n, {"float32": -6.5, "int32": -20, "uint8": 7}[dt], dtype=np.float64)
+            v = np.full(n, {"int32": -20, "uint8": 7}.get(dt, -6.5), dtype=np.float64)
         else:
             iv = np.array([_ival(mid, e) for e in range(n)], dtype=np.float64)
-            if dt == "float32":
+            if dt not in INT_DTYPES:
                 v = iv / 4.0 - 2.75
             elif dt == "int32":
                 v = iv - 11
@@ -87,15 +96,17 @@ def flat(data):
 
 
 def flat_masks():
-    is_int, is_f = [], []
+    """Per flat element: integer dtype; float32 (the leaves the gradient clause differentiates); absolute tolerance."""
+    is_int, is_f, tol = [], [], []
     for _, dt, sh in LEAVES:
         n = int(np.prod(sh)) if sh else 1
-        is_int += [dt != "float32"] * n
+        is_int += [dt in INT_DTYPES] * n
         is_f += [dt == "float32"] * n
-    return np.array(is_int), np.array(is_f)
+        tol += [TOL_BY_DTYPE.get(dt, 0.0)] * n
+    return np.array(is_int), np.array(is_f), np.array(tol)
 
 
-IS_INT, IS_F = flat_masks()
+IS_INT, IS_F, TOLV = flat_masks()
 
 
 # ------------------------------------------------------------------------------------------------
@@ -377,17 +388,17 @@ def zoh_window(seq, sent, recv, d, ts, W):
 # comparison helpers
 # ------------------------------------------------------------------------------------------------
 def value_ok(v, lo, hi):
-    """v (P,) observed (float64 view of the restored dtype). floats: within TOL_F of [lo,hi]; integers: any integer between
+    """v (P,) observed (float64 view of the restored dtype). floats: within the dtype's tolerance (TOLV) of [lo,hi]; integers: any integer between
     floor(lo - 1e-6) and ceil(hi + 1e-6): the property does not fix the rounding of the cast, and rex truncates a float32 result
     that can sit one ulp below an integer (observed: -2.9999998 -> -2 in one XLA program, -3 in another), so an integer-valued
     signal accepts its two integer neighbours as well.  Exactness at message hits is demanded by the zoh clause instead."""
-    okf = (v >= lo - TOL_F) & (v <= hi + TOL_F)
+    okf = (v >= lo - TOLV) & (v <= hi + TOLV)
     oki = (v >= np.floor(lo - 1e-6)) & (v <= np.ceil(hi + 1e-6))
     return np.where(IS_INT, oki, okf)
 
 
 def hull_ok(v, nlo, nhi):
-    okf = (v >= nlo - TOL_F) & (v <= nhi + TOL_F)
+    okf = (v >= nlo - TOLV) & (v <= nhi + TOLV)
     oki = (v >= np.floor(nlo + 1e-9)) & (v <= np.ceil(nhi - 1e-9))
     return np.where(IS_INT, oki, okf)
 
@@ -395,6 +406,6 @@ def hull_ok(v, nlo, nhi):
 def entry_ok(v, quad):
     """value_ok and hull_ok in one pass (same acceptance set; this is the hot path)."""
     lo, hi, nlo, nhi = quad
-    low = np.where(IS_INT, np.maximum(np.floor(lo - 1e-6), nlo), np.maximum(lo, nlo) - TOL_F)
-    upp = np.where(IS_INT, np.minimum(np.ceil(hi + 1e-6), nhi), np.minimum(hi, nhi) + TOL_F)
+    low = np.where(IS_INT, np.maximum(np.floor(lo - 1e-6), nlo), np.maximum(lo, nlo) - TOLV)
+    upp = np.where(IS_INT, np.minimum(np.ceil(hi + 1e-6), nhi), np.minimum(hi, nhi) + TOLV)
     return bool(((v >= low) & (v <= upp)).all())
